@@ -548,17 +548,20 @@ def run_check(prop, tier, seed, replay=None):
 
 def setup():
     t0 = time.time()
+    ready_file = os.path.join(HERE, 'ready.txt')
+    ready = set(open(ready_file).read().split()) if os.path.exists(ready_file) else set(PROPS)
+    props = {k: v for k, v in PROPS.items() if k in ready}
     with Lock('lake'):
         translate.run()
-        targets = sorted(set(m for c in PROPS.values() for m in c['props_modules']) |
-                         set('drv-' + c['driver'] for c in PROPS.values()))
+        targets = sorted(set(m for c in props.values() for m in c['props_modules']) |
+                         set('drv-' + c['driver'] for c in props.values()))
         rc, out = lake(['build'] + targets)
     if rc != 0:
         log(out[-3000:])
         log('setup: lake build failed')
         return 1
     seen = set()
-    for prop, cfg in PROPS.items():
+    for prop, cfg in props.items():
         hc = cfg['harness']
         key = (hc['name'], tuple(hc.get('srcs', ())), tuple(hc.get('flags', ())))
         if key in seen:
